@@ -323,6 +323,23 @@ def managed_app(rpc, application_name):
     return application_name in apps and apps[application_name].rules.managed
 
 
+STRATEGY_CODES = (Faults.INCORRECT_PARAMETERS, Faults.BAD_NAME)
+START_STOP_STATE_EFFECTS = ('starter.start_applications', 'starter.start_application', 'starter.start_process',
+                            'stopper.stop_application', 'stopper.restart_application', 'stopper.stop_process',
+                            'stopper.restart_process', 'commander.next', 'conciliate_conflicts', 'fsm.set_state',
+                            'fsm.next', 'rpc_handler.send_restart_all', 'rpc_handler.send_shutdown_all',
+                            'rpc_handler.send_state_event', 'supervisor_updater.update_numprocs',
+                            'supervisor_updater.enable_program', 'supervisor_updater.disable_program')
+
+
+def code_causes_app(rpc, strategy, application_name, exc):
+    """each rejection code is raised for its documented cause only"""
+    return (implies(exc.code == Faults.INCORRECT_PARAMETERS, not valid_strategy(strategy, StartingStrategies))
+            and implies(exc.code == Faults.BAD_NAME, not known_app(rpc, application_name))
+            and implies(exc.code == NOT_MANAGED, known_app(rpc, application_name)
+                        and not managed_app(rpc, application_name)))
+
+
 @contract('rpcinterface:RPCInterface.start_application', props=['C17'])
 class StartApplication:
     """'start ... in OPERATION only ... otherwise raises BAD_SUPVISORS_STATE without any effect. Unknown application
@@ -338,7 +355,10 @@ class StartApplication:
 
     def post_served_only_when_acceptable(self, strategy, application_name, old):
         return (fsm_state(old.self) == SupvisorsStates.OPERATION and valid_strategy(strategy, StartingStrategies)
-                and managed_app(old.self, application_name))
+                and known_app(old.self, application_name))
+
+    def post_served_only_when_managed(self, application_name, old):
+        return managed_app(old.self, application_name)
 
     def post_start_requested(self, strategy, application_name, old):
         return (count_effects('starter.start_application') == 1
@@ -350,15 +370,324 @@ class StartApplication:
         return (exc.code == BAD_STATE) == (fsm_state(old.self) != SupvisorsStates.OPERATION)
 
     def exc_RPCError_codes(self, strategy, application_name, exc, old):
-        return (implies(exc.code == Faults.INCORRECT_PARAMETERS, not valid_strategy(strategy, StartingStrategies))
+        return code_causes_app(old.self, strategy, application_name, exc)
+
+    def exc_RPCError_invalid_parameters(self, strategy, application_name, exc, old):
+        return implies(fsm_state(old.self) == SupvisorsStates.OPERATION
+                       and not (valid_strategy(strategy, StartingStrategies) and known_app(old.self, application_name)),
+                       exc.code in STRATEGY_CODES)
+
+    def exc_RPCError_unmanaged(self, strategy, application_name, exc, old):
+        return implies(fsm_state(old.self) == SupvisorsStates.OPERATION and valid_strategy(strategy, StartingStrategies)
+                       and known_app(old.self, application_name) and not managed_app(old.self, application_name),
+                       exc.code == NOT_MANAGED)
+
+    def exc_RPCError_rejected_cleanly(self, exc):
+        return rejected_cleanly(exc)
+
+
+@contract('rpcinterface:RPCInterface.test_start_application', props=['C17'])
+class TestStartApplication:
+    """'test_start ... in OPERATION only'; same rejections as start_application; nothing is started or stopped"""
+    raises = ('RPCError',)
+    returns = 'List[Payload]'
+    type_variants = [{'strategy': 'str'}, {'strategy': 'int'}, {'strategy': 'bool'}, {'strategy': 'float'},
+                     {'strategy': 'List[str]'}]
+
+    def pre_valid(self):
+        return cmd_valid(self)
+
+    def post_served_only_when_acceptable(self, strategy, application_name, old):
+        return (fsm_state(old.self) == SupvisorsStates.OPERATION and valid_strategy(strategy, StartingStrategies)
+                and known_app(old.self, application_name))
+
+    def post_served_only_when_managed(self, application_name, old):
+        return managed_app(old.self, application_name)
+
+    def post_prediction_only(self):
+        return (count_effects('starter_model.test_start_application') == 1
+                and all(no_effect(e) for e in START_STOP_STATE_EFFECTS))
+
+    def exc_RPCError_bad_state(self, exc, old):
+        return (exc.code == BAD_STATE) == (fsm_state(old.self) != SupvisorsStates.OPERATION)
+
+    def exc_RPCError_codes(self, strategy, application_name, exc, old):
+        return code_causes_app(old.self, strategy, application_name, exc)
+
+    def exc_RPCError_invalid_parameters(self, strategy, application_name, exc, old):
+        return implies(fsm_state(old.self) == SupvisorsStates.OPERATION
+                       and not (valid_strategy(strategy, StartingStrategies) and known_app(old.self, application_name)),
+                       exc.code in STRATEGY_CODES)
+
+    def exc_RPCError_unmanaged(self, strategy, application_name, exc, old):
+        return implies(fsm_state(old.self) == SupvisorsStates.OPERATION and valid_strategy(strategy, StartingStrategies)
+                       and known_app(old.self, application_name) and not managed_app(old.self, application_name),
+                       exc.code == NOT_MANAGED)
+
+    def exc_RPCError_no_request(self, exc):
+        return all(no_effect(e) for e in START_STOP_STATE_EFFECTS) and rejected_cleanly(exc)
+
+
+@contract('rpcinterface:RPCInterface.stop_application', props=['C17'])
+class StopApplication:
+    """'stop requests in OPERATION or CONCILIATION'; BAD_NAME, NOT_MANAGED; a rejected request emits nothing"""
+    raises = ('RPCError',)
+    types = {'wait': 'bool'}
+
+    def pre_valid(self):
+        return cmd_valid(self)
+
+    def post_served_only_when_acceptable(self, application_name, old):
+        return fsm_state(old.self) in OPERATION_CONCILIATION and known_app(old.self, application_name)
+
+    def post_served_only_when_managed(self, application_name, old):
+        return managed_app(old.self, application_name)
+
+    def post_stop_requested(self, application_name, old):
+        return (count_effects('stopper.stop_application') == 1
+                and effect_at('stopper.stop_application', 0)[0] is old.self.supvisors.context.applications[application_name]
+                and no_effect('starter.start_application', 'starter.start_process', 'fsm.set_state', 'fsm.next'))
+
+    def exc_RPCError_bad_state(self, exc, old):
+        return (exc.code == BAD_STATE) == (fsm_state(old.self) not in OPERATION_CONCILIATION)
+
+    def exc_RPCError_codes(self, application_name, exc, old):
+        return (exc.code != Faults.INCORRECT_PARAMETERS
                 and implies(exc.code == Faults.BAD_NAME, not known_app(old.self, application_name))
                 and implies(exc.code == NOT_MANAGED, known_app(old.self, application_name)
                             and not managed_app(old.self, application_name)))
 
+    def exc_RPCError_invalid_parameters(self, application_name, exc, old):
+        return implies(fsm_state(old.self) in OPERATION_CONCILIATION and not known_app(old.self, application_name),
+                       exc.code == Faults.BAD_NAME)
+
+    def exc_RPCError_unmanaged(self, application_name, exc, old):
+        return implies(fsm_state(old.self) in OPERATION_CONCILIATION and known_app(old.self, application_name)
+                       and not managed_app(old.self, application_name), exc.code == NOT_MANAGED)
+
+    def exc_RPCError_rejected_cleanly(self, exc):
+        return rejected_cleanly(exc)
+
+
+@contract('rpcinterface:RPCInterface.restart_application', props=['C17'])
+class RestartApplication:
+    """'restart ... in OPERATION only'; 'unmanaged applications [raise] NOT_MANAGED' (also in the method's own
+    docstring: 'SupvisorsFaults.NOT_MANAGED if the application is not Managed in Supvisors')"""
+    raises = ('RPCError',)
+    types = {'wait': 'bool'}
+    type_variants = [{'strategy': 'str'}, {'strategy': 'int'}, {'strategy': 'bool'}, {'strategy': 'float'},
+                     {'strategy': 'List[str]'}]
+
+    def pre_valid(self):
+        return valid(self)
+
+    def post_served_only_when_acceptable(self, strategy, application_name, old):
+        return (fsm_state(old.self) == SupvisorsStates.OPERATION and valid_strategy(strategy, StartingStrategies)
+                and known_app(old.self, application_name))
+
+    def post_served_only_when_managed(self, application_name, old):
+        return managed_app(old.self, application_name)
+
+    def post_restart_requested(self, strategy, application_name, old):
+        return (count_effects('stopper.restart_application') == 1
+                and designates(strategy, effect_at('stopper.restart_application', 0)[0])
+                and effect_at('stopper.restart_application', 0)[1] is old.self.supvisors.context.applications[application_name]
+                and no_effect('fsm.set_state', 'fsm.next'))
+
+    def exc_RPCError_bad_state(self, exc, old):
+        return (exc.code == BAD_STATE) == (fsm_state(old.self) != SupvisorsStates.OPERATION)
+
+    def exc_RPCError_codes(self, strategy, application_name, exc, old):
+        return code_causes_app(old.self, strategy, application_name, exc)
+
     def exc_RPCError_invalid_parameters(self, strategy, application_name, exc, old):
         return implies(fsm_state(old.self) == SupvisorsStates.OPERATION
-                       and not (valid_strategy(strategy, StartingStrategies) and managed_app(old.self, application_name)),
-                       exc.code in (Faults.INCORRECT_PARAMETERS, Faults.BAD_NAME, NOT_MANAGED))
+                       and not (valid_strategy(strategy, StartingStrategies) and known_app(old.self, application_name)),
+                       exc.code in STRATEGY_CODES)
+
+    def exc_RPCError_unmanaged(self, strategy, application_name, exc, old):
+        return implies(fsm_state(old.self) == SupvisorsStates.OPERATION and valid_strategy(strategy, StartingStrategies)
+                       and known_app(old.self, application_name) and not managed_app(old.self, application_name),
+                       exc.code == NOT_MANAGED)
+
+    def exc_RPCError_rejected_cleanly(self, exc):
+        return rejected_cleanly(exc)
+
+
+# ------------------------------------------------------------------------------------------ process-level commands
+def known_namespec(rpc, namespec):
+    """the namespec designates a known application and, unless it designates the whole group, a known process of it"""
+    apps = rpc.supvisors.context.applications
+    names = split_namespec(namespec)
+    return names[0] in apps and (names[1] is None or names[1] == '' or names[1] in apps[names[0]].processes)
+
+
+def procs_valid(context):
+    """an application never stays in the Context without a process (Context.setdefault_process adds the first one at
+    creation; on_process_removed_event deletes an emptied application: 'an update of numprocs cannot leave the
+    application empty ... a remove_group can induce this situation')"""
+    apps = context.applications
+    return forall(str, lambda n: implies(n in apps, exists(str, lambda p: p in apps[n].processes)))
+
+
+def code_causes_proc(rpc, strategy, namespec, exc):
+    return (implies(exc.code == Faults.INCORRECT_PARAMETERS, not valid_strategy(strategy, StartingStrategies))
+            and implies(exc.code == Faults.BAD_NAME, not known_namespec(rpc, namespec))
+            and exc.code != NOT_MANAGED)
+
+
+@contract('rpcinterface:RPCInterface.start_process', props=['C17'])
+class StartProcess:
+    """'start ... in OPERATION only'; unknown strategy INCORRECT_PARAMETERS, unknown namespec BAD_NAME; a rejected
+    request emits nothing.  (NOT_MANAGED does not apply to process-level commands.)"""
+    raises = ('RPCError',)
+    types = {'wait': 'bool', 'extra_args': 'str'}
+    type_variants = [{'strategy': 'str'}, {'strategy': 'int'}, {'strategy': 'bool'}, {'strategy': 'float'},
+                     {'strategy': 'List[str]'}]
+    loop1_effects = ('starter.start_process',)
+
+    def pre_valid(self):
+        return valid(self) and procs_valid(self.supvisors.context)
+
+    def loop0_inv(self):
+        return True
+
+    def loop0_modifies(self):
+        return []
+
+    def loop1_inv(self):
+        return True
+
+    def post_served_only_when_acceptable(self, strategy, namespec, old):
+        return (fsm_state(old.self) == SupvisorsStates.OPERATION and valid_strategy(strategy, StartingStrategies)
+                and known_namespec(old.self, namespec))
+
+    def post_no_stop_no_state_change(self):
+        return no_effect('stopper.stop_application', 'stopper.stop_process', 'stopper.restart_process',
+                         'stopper.restart_application', 'fsm.set_state', 'fsm.next')
+
+    def exc_RPCError_bad_state(self, exc, old):
+        return (exc.code == BAD_STATE) == (fsm_state(old.self) != SupvisorsStates.OPERATION)
+
+    def exc_RPCError_codes(self, strategy, namespec, exc, old):
+        return code_causes_proc(old.self, strategy, namespec, exc)
+
+    def exc_RPCError_invalid_parameters(self, strategy, namespec, exc, old):
+        return implies(fsm_state(old.self) == SupvisorsStates.OPERATION
+                       and not (valid_strategy(strategy, StartingStrategies) and known_namespec(old.self, namespec)),
+                       exc.code in STRATEGY_CODES)
+
+    def exc_RPCError_rejected_cleanly(self, exc):
+        return rejected_cleanly(exc)
+
+
+@contract('rpcinterface:RPCInterface.test_start_process', props=['C17'])
+class TestStartProcess:
+    """'test_start ... in OPERATION only'; nothing is started or stopped"""
+    raises = ('RPCError',)
+    returns = 'List[Payload]'
+    type_variants = [{'strategy': 'str'}, {'strategy': 'int'}, {'strategy': 'bool'}, {'strategy': 'float'},
+                     {'strategy': 'List[str]'}]
+
+    def pre_valid(self):
+        return valid(self) and procs_valid(self.supvisors.context)
+
+    def loop0_inv(self):
+        return True
+
+    def loop0_modifies(self):
+        return []
+
+    def post_served_only_when_acceptable(self, strategy, namespec, old):
+        return (fsm_state(old.self) == SupvisorsStates.OPERATION and valid_strategy(strategy, StartingStrategies)
+                and known_namespec(old.self, namespec))
+
+    def post_prediction_only(self):
+        return (count_effects('starter_model.test_start_processes') == 1
+                and all(no_effect(e) for e in START_STOP_STATE_EFFECTS))
+
+    def exc_RPCError_bad_state(self, exc, old):
+        return (exc.code == BAD_STATE) == (fsm_state(old.self) != SupvisorsStates.OPERATION)
+
+    def exc_RPCError_codes(self, strategy, namespec, exc, old):
+        return code_causes_proc(old.self, strategy, namespec, exc)
+
+    def exc_RPCError_invalid_parameters(self, strategy, namespec, exc, old):
+        return implies(fsm_state(old.self) == SupvisorsStates.OPERATION
+                       and not (valid_strategy(strategy, StartingStrategies) and known_namespec(old.self, namespec)),
+                       exc.code in STRATEGY_CODES)
+
+    def exc_RPCError_no_request(self, exc):
+        return all(no_effect(e) for e in START_STOP_STATE_EFFECTS) and rejected_cleanly(exc)
+
+
+@contract('rpcinterface:RPCInterface.stop_process', props=['C17'])
+class StopProcess:
+    """'stop requests in OPERATION or CONCILIATION'; unknown namespec BAD_NAME; a rejected request emits nothing"""
+    raises = ('RPCError',)
+    types = {'wait': 'bool'}
+    loop0_effects = ('stopper.stop_process',)
+
+    def pre_valid(self):
+        return valid(self) and procs_valid(self.supvisors.context)
+
+    def loop0_inv(self):
+        return True
+
+    def post_served_only_when_acceptable(self, namespec, old):
+        return fsm_state(old.self) in OPERATION_CONCILIATION and known_namespec(old.self, namespec)
+
+    def post_no_start_no_state_change(self):
+        return no_effect('starter.start_application', 'starter.start_process', 'starter.start_applications',
+                         'stopper.restart_process', 'stopper.restart_application', 'fsm.set_state', 'fsm.next')
+
+    def exc_RPCError_bad_state(self, exc, old):
+        return (exc.code == BAD_STATE) == (fsm_state(old.self) not in OPERATION_CONCILIATION)
+
+    def exc_RPCError_codes(self, namespec, exc, old):
+        return (implies(exc.code == Faults.BAD_NAME, not known_namespec(old.self, namespec))
+                and exc.code != NOT_MANAGED and exc.code != Faults.INCORRECT_PARAMETERS)
+
+    def exc_RPCError_invalid_parameters(self, namespec, exc, old):
+        return implies(fsm_state(old.self) in OPERATION_CONCILIATION and not known_namespec(old.self, namespec),
+                       exc.code == Faults.BAD_NAME)
+
+    def exc_RPCError_rejected_cleanly(self, exc):
+        return rejected_cleanly(exc)
+
+
+@contract('rpcinterface:RPCInterface.restart_process', props=['C17'])
+class RestartProcess:
+    """'restart ... in OPERATION only'; unknown strategy INCORRECT_PARAMETERS, unknown namespec BAD_NAME"""
+    raises = ('RPCError',)
+    types = {'wait': 'bool', 'extra_args': 'str'}
+    type_variants = [{'strategy': 'str'}, {'strategy': 'int'}, {'strategy': 'bool'}, {'strategy': 'float'},
+                     {'strategy': 'List[str]'}]
+    loop0_effects = ('stopper.restart_process',)
+
+    def pre_valid(self):
+        return valid(self) and procs_valid(self.supvisors.context)
+
+    def loop0_inv(self):
+        return True
+
+    def post_served_only_when_acceptable(self, strategy, namespec, old):
+        return (fsm_state(old.self) == SupvisorsStates.OPERATION and valid_strategy(strategy, StartingStrategies)
+                and known_namespec(old.self, namespec))
+
+    def post_no_state_change(self):
+        return no_effect('fsm.set_state', 'fsm.next')
+
+    def exc_RPCError_bad_state(self, exc, old):
+        return (exc.code == BAD_STATE) == (fsm_state(old.self) != SupvisorsStates.OPERATION)
+
+    def exc_RPCError_codes(self, strategy, namespec, exc, old):
+        return code_causes_proc(old.self, strategy, namespec, exc)
+
+    def exc_RPCError_invalid_parameters(self, strategy, namespec, exc, old):
+        return implies(fsm_state(old.self) == SupvisorsStates.OPERATION
+                       and not (valid_strategy(strategy, StartingStrategies) and known_namespec(old.self, namespec)),
+                       exc.code in STRATEGY_CODES)
 
     def exc_RPCError_rejected_cleanly(self, exc):
         return rejected_cleanly(exc)
